@@ -2,7 +2,7 @@
 # Runs the repository's pinned test suite with the verif guard OFF and compares with BASELINE.json.
 # exit 0 iff every stable_pass test passes.
 export GOFLAGS=-mod=mod GOPROXY=off GOSUMDB=off GOTOOLCHAIN=local
-cd /repo || exit 2
+cd "${ZN_REPO:-/repo}" || exit 2
 out=$(mktemp)
 go test -mod=mod -json -vet=off -count=1 -timeout 25m ./... > "$out" 2>/dev/null
 python3 - "$out" <<'PY'
